@@ -39,7 +39,7 @@ PROPS["C05"] = {
                {"name": "concurrent", "timeout": 3000}],
     "also": ["C11"],
     "required_theorems": ["C05_self_match", "C05_found_in_alerts", "C05_found_exact_json"],
-    "level_text": "Kernel-checked: MatchSignature(t, IndexFunction(t)) has confidence exactly 1 for every topology, hash value and default tolerance, hence the indexed signature is reported by the alert pipeline of either backend at every threshold <= 1 and by JSON exact mode. Tie: IndexFunction, GenerateTopologyHash (model SHA-256), GenerateFuzzyHash, MatchSignature differential; self-match evaluated on the real code for every generated topology.",
+    "level_text": "Kernel-checked: MatchSignature(t, IndexFunction(t)) has confidence exactly 1 for every topology, hash value and default tolerance, hence the indexed signature is reported by the alert pipeline of either backend at every threshold <= 1 and by JSON exact mode. Tie: IndexFunction, GenerateTopologyHash (model SHA-256), GenerateFuzzyHash, MatchSignature differential; self-match evaluated on the real code for every generated topology; the concurrent stress of C11 (one writer, scanning goroutines, the writer scanning for what it has just written) is run for this property too: a scan that misses a signature whose add has returned breaks 'found again'.",
     "level_note": "PARTIAL: the SSA-extraction half (topology of a renamed/reformatted copy equals the original's) is a fact about go/ssa + ExtractTopology and is validated by differential runs on generated Go sources, not proved. Trusted: Lean kernel, SHA-256 model used only for equality, harness.",
     "partial": "name-independence of ExtractTopology is validated, not proved",
     "trusted_base": ["go/packages + go/ssa construction and topology.ExtractTopology are exercised, not modelled"],
